@@ -21,6 +21,58 @@ AMPLIFIERS = ('repeat-whole', 'repeat-segment', 'long-token', 'separator-storm',
               'zero-tail', 'nested-brackets', 'crlf-lines')
 
 
+def _spf(term):
+    return lambda size: b'v=spf1 ' + b' '.join([term] * max(1, size // (len(term) + 1))) + b' -all'
+
+
+def _csp_sources(size):
+    return b"default-src 'self' " + b' '.join([b'https://h.example'] * max(1, size // 18))
+
+
+def _csp_directives(size):
+    names = [b'img-src', b'font-src', b'media-src', b'frame-src', b'style-src', b'script-src', b'object-src', b'connect-src']
+    return b'; '.join(names[i % len(names)] + b" 'self'" for i in range(max(1, size // 17)))
+
+
+def _tagged(head, item):
+    return lambda size: head + b'; '.join([item] * max(1, size // (len(item) + 2)))
+
+
+def _kexinit(size):
+    names = b','.join([b'curve25519-sha256'] * max(1, size // 18))
+    lists = [names] + [b'x'] * 9
+    return b'\x14' + b'\x00' * 16 + b''.join(len(entry).to_bytes(4, 'big') + entry for entry in lists) + b'\x00' + b'\x00' * 4
+
+
+def _txt_strings(size):
+    return b''.join(b'\xff' + b'a' * 255 for _ in range(max(1, size // 256)))
+
+
+def _header_block(line):
+    return lambda size: line * max(1, size // len(line)) + b'\r\n'
+
+
+SPF = 'cryptoparser.dnsrec.txt:DnsRecordTxtValueSpf'
+EXPLICIT_SHAPES = [(SPF, 'spf-' + term.decode('ascii').split(':')[0].split('=')[0] + ('-cidr' if b'/' in term else ''), _spf(term))
+                   for term in (b'a:example.com', b'mx:example.com', b'a', b'mx', b'a:example.com/24', b'mx/24//64',
+                                b'include:x.example', b'ip4:1.2.3.4', b'ip6:::1', b'exists:%{i}.x', b'ptr:example.com',
+                                b'redirect=x.example', b'unknown=val', b'+all')] + [
+    ('cryptoparser.httpx.header:HttpHeaderFieldValueContentSecurityPolicy', 'csp-sources', _csp_sources),
+    ('cryptoparser.httpx.header:HttpHeaderFieldValueContentSecurityPolicy', 'csp-directives', _csp_directives),
+    ('cryptoparser.dnsrec.txt:DnsRecordTxtValueDmarc', 'dmarc-unknown-tags', _tagged(b'v=DMARC1; p=none; ', b'x=y')),
+    ('cryptoparser.dnsrec.txt:DnsRecordTxtValueMtaSts', 'mta-sts-unknown-fields', _tagged(b'v=STSv1; id=1; ', b'x=y')),
+    ('cryptoparser.httpx.header:HttpHeaderFieldValueSTS', 'hsts-unknown-directives', _tagged(b'max-age=1; ', b'x=y')),
+    ('cryptoparser.httpx.header:HttpHeaderFieldValueCacheControlResponse', 'cache-control-extensions',
+     lambda size: b'no-cache, ' + b', '.join([b'x=y'] * max(1, size // 5))),
+    ('cryptoparser.httpx.header:HttpHeaderFieldValueSetCookie', 'set-cookie-attributes', _tagged(b'n=v; ', b'x=y')),
+    ('cryptoparser.ssh.subprotocol:SshKeyExchangeInit', 'kexinit-name-list', _kexinit),
+    ('cryptoparser.dnsrec.record:DnsRecordTxt', 'txt-strings', _txt_strings),
+    ('cryptoparser.httpx.header:HttpHeaderFields', 'unknown-header-lines', _header_block(b'X-Unknown-Header: value\r\n')),
+    ('cryptoparser.httpx.header:HttpHeaderFields', 'known-header-lines', _header_block(b'Strict-Transport-Security: max-age=1\r\n')),
+    ('cryptoparser.httpx.header:HttpHeaderFields', 'cookie-header-lines', _header_block(b'Set-Cookie: a=b; Path=/; Secure\r\n')),
+]
+
+
 def amplify(seed, kind, size):  # pylint: disable=too-many-return-statements,too-many-branches
     """A shape of about `size` bytes derived from a valid encoding."""
     texty = mutate.is_texty(seed)
@@ -114,6 +166,10 @@ class Check(core.CheckBase):
             index += 1
             if self.mine(index):
                 yield {'kind': 'fuzz', 'cls': name}
+        for number in range(len(EXPLICIT_SHAPES)):
+            index += 1
+            if self.mine(index):
+                yield {'kind': 'growth-explicit', 'number': number}
         for shape in ('vector-items', ):
             for name in sorted(inventory.vector_classes()):
                 index += 1
@@ -206,6 +262,13 @@ class Check(core.CheckBase):
         seed = self.corpus[case['cls']][case['seed_index']]
         return self.measure_series(cls, lambda size: amplify(seed, case['amplifier'], size), case, case['amplifier'])
 
+    def judge_growth_explicit(self, case):
+        cls_name, label, make = EXPLICIT_SHAPES[case['number']]
+        cls = self.classes.get(cls_name)
+        if cls is None:
+            return []
+        return self.measure_series(cls, make, dict(case, cls=cls_name), 'explicit:' + label)
+
     def judge_growth_vector(self, case):
         """n copies of a valid item inside the vector's own length prefix."""
         vectors = inventory.vector_classes()
@@ -249,6 +312,17 @@ class Check(core.CheckBase):
                 if stream:
                     inputs.append(rng.choice(stream))
             inputs.append((('seed', ), seeds[0]))
+            # maximal declared counts / lengths with little data behind them: every 1..4 byte window of the first 40
+            # bytes of a valid encoding set to all-ones (also behind a zero byte: escaped 3-byte length forms), the
+            # input cut shortly after the window
+            data = seeds[rng.randrange(len(seeds))]
+            for offset in range(0, min(len(data), 40)):
+                for width in (1, 2, 3, 4):
+                    if rng.random() > (1.0 if self.tier == 'thorough' else 0.35):
+                        continue
+                    for prefix in (b'', b'\x00'):
+                        tail = data[offset + len(prefix) + width:offset + len(prefix) + width + rng.choice((0, 3, 8, 24))]
+                        inputs.append((('declared-max', offset, width), data[:offset] + prefix + b'\xff' * width + tail))
         for recipe, data in inputs:
             budget = BUDGET_A + BUDGET_B * len(data)
             outcome, steps, depth = self.monitor.measure(cls.parse_immutable, data, budget=budget)
